@@ -3,6 +3,9 @@ import FxVerif.Proofs.C15
 import FxVerif.Proofs.C15Queue
 import FxVerif.Proofs.C15Tally
 import FxVerif.Proofs.C15Run
+import FxVerif.Proofs.C15Step
+import FxVerif.Proofs.C15Staking
+import FxVerif.Proofs.C15Ledger
 /-!
 # C15 — governance deposits are conserved and proposals follow their message-type rules
 
@@ -725,6 +728,485 @@ theorem min_deposit_over_sum_of_spends (s : State) (p : Proposal) (who : Addr) (
   rw [e] at h
   exact h
 
+/-! ## round 3: activation ⇔ minimum deposit, and voting ends exactly at the queue time — over every history -/
+
+/-- requested community-pool amounts (deposit denom, other denom) when every message is a community-pool spend -/
+def specRequest2 : List Msg → Option (Nat × Nat)
+  | [] => some (0, 0)
+  | m :: r =>
+    if isSpendType m.ty then
+      match specRequest2 r, m.act with
+      | some (a, b), .credit fx other _ => some (a + fx, b + other)
+      | some (a, b), _ => some (a, b)
+      | none, _ => none
+    else none
+
+theorem egfRequest_eq_spec2 : ∀ msgs : List Msg, egfRequest msgs = specRequest2 msgs := by
+  intro msgs
+  induction msgs with
+  | nil => rfl
+  | cons m r ih =>
+    have h1 : egfSeenUrl m = m.ty := by simp [egfSeenUrl, show egfUrlIsMessageUrl = true from rfl]
+    have h2 : isEgf m.ty = isSpendType m.ty := by simp [isEgf, isSpendType, show egfTypeCmp = "strings.EqualFold" from rfl]
+    simp only [egfRequest, specRequest2, h1, h2, ih]
+    by_cases hs : isSpendType m.ty = true
+    · simp only [hs, if_true]
+      cases specRequest2 r with
+      | none => rfl
+      | some ab => obtain ⟨a, b⟩ := ab; cases m.act <;> rfl
+    · simp [hs]
+
+theorem specRequest_eq_fst : ∀ msgs : List Msg, specRequest msgs = (specRequest2 msgs).map (·.1) := by
+  intro msgs
+  induction msgs with
+  | nil => rfl
+  | cons m r ih =>
+    simp only [specRequest, specRequest2, ih]
+    by_cases hs : isSpendType m.ty = true
+    · simp only [hs, if_true]
+      cases specRequest2 r with
+      | none => rfl
+      | some ab => obtain ⟨a, b⟩ := ab; cases m.act <;> rfl
+    · simp [hs]
+
+/-- the configured share of the amount requested in a denomination that cannot be deposited (deposits are made in the one
+denomination of `params.MinDeposit`): when it is positive, no deposit can ever reach the minimum -/
+def specOtherShare (custom : List (Ty × Custom)) (msgs : List Msg) : Nat :=
+  match specRequest2 msgs, getCustom custom egfUrl.toList with
+  | some (_, other), some c => mulRound other c.depositRatio
+  | _, _ => 0
+
+/-- **the activation test the property asks for**: the total deposit reaches the minimum applicable to the message type -/
+def specActivates (custom : List (Ty × Custom)) (dflt : Nat) (msgs : List Msg) (total : Nat) : Bool :=
+  decide (specMin custom dflt msgs ≤ total) && total != 0 && specOtherShare custom msgs == 0
+
+theorem mulRound_zero_left (r : Nat) : mulRound 0 r = 0 := by simp [mulRound, roundHalfEven, DEC]
+theorem mulRound_zero_right (a : Nat) : mulRound a 0 = 0 := by simp [mulRound, roundHalfEven, DEC]
+
+/-- the test `AddDeposit` performs (comparison, EGF rule, rounding and combination all read from the source) IS the
+specified one — both directions -/
+theorem reaches_eq_specActivates (custom : List (Ty × Custom)) (dflt total : Nat) (msgs : List Msg) :
+    reaches total (minForMsgs custom dflt msgs) = specActivates custom dflt msgs total := by
+  have hA : activationCmp = "IsAllGTE" := rfl
+  have hB : egfCombine = "max" := rfl
+  have hC : activationUsesMsgMin = true := rfl
+  have hD : egfRounding = "RoundInt" := rfl
+  have hZ : egfZeroRatioIsDefault = true := rfl
+  have plain : reaches total ⟨some dflt, none⟩ = (decide (dflt ≤ total) && total != 0 && true) := by
+    simp only [reaches, hA]
+    by_cases h1 : dflt ≤ total <;> by_cases h2 : total = 0 <;> simp [h1, h2]
+  unfold minForMsgs specActivates specMin specOtherShare
+  simp only [hC, Bool.not_true, Bool.false_eq_true, if_false]
+  rw [egfRequest_eq_spec2, specRequest_eq_fst]
+  cases hs : specRequest2 msgs with
+  | none => simpa using plain
+  | some ab =>
+    obtain ⟨a, b⟩ := ab
+    simp only [Option.map_some]
+    cases hc : getCustom custom egfUrl.toList with
+    | none => simpa using plain
+    | some c =>
+      simp only
+      by_cases hz : c.depositRatio = 0
+      · simp only [hZ, hz, beq_self_eq_true, Bool.and_self, if_true, mulRound_zero_right]
+        simpa using plain
+      · have hz' : (c.depositRatio == 0) = false := by simpa using hz
+        have hne : ¬ ("max" == "share-unless-IsAllLT-default") = true := by decide
+        simp only [hz', Bool.and_false, Bool.false_eq_true, if_false, hB, hne, beq_self_eq_true, if_true, egfShare, hD]
+        have hfx : (if (a == 0) = true then (none : Option Nat) else some (mulRound a c.depositRatio)).getD 0 = mulRound a c.depositRatio := by
+          by_cases ha : a = 0
+          · subst ha; simp [mulRound_zero_left]
+          · simp [ha]
+        rw [hfx]
+        simp only [reaches, hA]
+        by_cases hb : b = 0
+        · subst hb
+          simp only [beq_self_eq_true, if_true, mulRound_zero_left]
+          by_cases h1 : max dflt (mulRound a c.depositRatio) ≤ total <;> by_cases h2 : total = 0 <;> simp [h1, h2]
+        · have hb' : (b == 0) = false := by simpa using hb
+          simp only [hb', Bool.false_eq_true, if_false]
+          cases hx : mulRound b c.depositRatio with
+          | zero =>
+            by_cases h1 : max dflt (mulRound a c.depositRatio) ≤ total <;> by_cases h2 : total = 0 <;> simp [h1, h2]
+          | succ y =>
+            by_cases h1 : max dflt (mulRound a c.depositRatio) ≤ total <;> by_cases h2 : total = 0 <;> simp [h1, h2]
+
+/-- **the order of the statements of `AddDeposit`, as written in the source now** (regenerated list, interpreted by the
+model): the coins are sent and the total is updated and stored before the minimum of the message type replaces the default
+and before the activation test, which therefore sees the NEW total and the type's minimum; the deposit record is written
+last.  With this order the interpreted run is the one-piece effect the theorems above and below speak about; with any
+other order (test hoisted above the update, minimum computed after the test, …) this obligation stops checking. -/
+theorem add_deposit_statement_order :
+    addDepositSteps =
+      ["getProposal", "statusCheck", "getParams", "defaultMin", "getRatio", "denomCheck", "ratioCheck", "sendCoins", "addTotal",
+       "setProposal", "msgMin", "flag", "activate", "getDeposit", "mergeDeposit", "hooks", "sdkCtx", "event", "setDeposit", "return"] ∧
+    ∀ (s : State) (p : Proposal) (who : Addr) (amt : Nat), depositRun s p who amt = depositEffect s p who amt :=
+  ⟨addDepositSteps_order, depositRun_eq⟩
+
+/-- **activation ⇔ minimum deposit, in every state**: a successful `AddDeposit` on a proposal in its deposit period moves
+it into voting if AND ONLY IF its new total reaches the minimum applicable to its message type — the default for its kind,
+or the configured share of the requested community-pool amount when that is larger (and nothing is requested in a
+denomination that cannot be deposited) -/
+theorem activation_iff_min_deposit (s : State) (p : Proposal) (who : Addr) (amt : Nat)
+    (hdep : p.status = .deposit) (hfound : findProp s.props p.id = some p) :
+    ∃ p', findProp (depositEffect s p who amt).props p.id = some p' ∧ p'.total = p.total + amt ∧
+      (p'.status = .voting ↔
+        specActivates s.custom (if p.expedited then s.params.expMinDeposit else s.params.minDeposit) p.msgs (p.total + amt) = true) ∧
+      (p'.status = .voting ∨ p'.status = .deposit) := by
+  rw [findProp_depositEffect s p who amt hfound]
+  simp only [if_true]
+  have e := reaches_eq_specActivates s.custom (defaultMin s p.expedited) (p.total + amt) p.msgs
+  have ed : defaultMin s p.expedited = if p.expedited then s.params.expMinDeposit else s.params.minDeposit := rfl
+  rw [ed] at e
+  by_cases hact : reaches (p.total + amt) (minForMsgs s.custom (defaultMin s p.expedited) p.msgs) = true
+  · have ha : (afterDeposit s p amt).status = .voting ∧ (afterDeposit s p amt).total = p.total + amt := by
+      simp [afterDeposit, hdep, hact]
+    refine ⟨_, rfl, ha.2, ⟨fun _ => ?_, fun _ => ha.1⟩, Or.inl ha.1⟩
+    rw [← e]; exact hact
+  · have hact' : reaches (p.total + amt) (minForMsgs s.custom (defaultMin s p.expedited) p.msgs) = false := by simpa using hact
+    have ha : afterDeposit s p amt = { p with total := p.total + amt } := by
+      simp [afterDeposit, hact']
+    rw [ha]
+    refine ⟨_, rfl, rfl, ⟨fun h => ?_, fun h => ?_⟩, Or.inr hdep⟩
+    · have h' : p.status = .voting := h
+      rw [hdep] at h'; cases h'
+    · rw [← e] at h; exact absurd (h.symm.trans hact') (by decide)
+
+theorem run_snoc : ∀ (ops : List Op) (s : State) (op : Op), run s (ops ++ [op]) = (step (run s ops) op).1 := by
+  intro ops
+  induction ops with
+  | nil => intro s op; rfl
+  | cons o r ih => intro s op; simp only [List.cons_append, run]; exact ih _ op
+
+theorem afterDeposit_facts (s : State) (p : Proposal) (amt : Nat) (hdep : p.status = .deposit) :
+    (afterDeposit s p amt).total = p.total + amt ∧ (afterDeposit s p amt).msgs = p.msgs ∧
+    (afterDeposit s p amt).expedited = p.expedited ∧
+    ((afterDeposit s p amt).status = .voting ↔ specActivates s.custom (defaultMin s p.expedited) p.msgs (p.total + amt) = true) ∧
+    ((afterDeposit s p amt).status = .voting ∨ (afterDeposit s p amt).status = .deposit) ∧
+    ((afterDeposit s p amt).status = .voting → (afterDeposit s p amt).votingStart = s.time ∧
+        (afterDeposit s p amt).votingEnd = s.time + specPeriod s.params s.custom p.msgs p.expedited) := by
+  have e := reaches_eq_specActivates s.custom (defaultMin s p.expedited) (p.total + amt) p.msgs
+  have t1 : (afterDeposit s p amt).total = p.total + amt := by unfold afterDeposit; split <;> rfl
+  have t2 : (afterDeposit s p amt).msgs = p.msgs := by unfold afterDeposit; split <;> rfl
+  have t3 : (afterDeposit s p amt).expedited = p.expedited := by unfold afterDeposit; split <;> rfl
+  refine ⟨t1, t2, t3, ?_⟩
+  by_cases hact : reaches (p.total + amt) (minForMsgs s.custom (defaultMin s p.expedited) p.msgs) = true
+  · have c : (p.status == .deposit && reaches (p.total + amt) (minForMsgs s.custom (defaultMin s p.expedited) p.msgs)) = true := by
+      simp [hdep, hact]
+    have u1 : (afterDeposit s p amt).status = .voting := by unfold afterDeposit; rw [if_pos c]
+    have u2 : (afterDeposit s p amt).votingStart = s.time := by unfold afterDeposit; rw [if_pos c]
+    have u3 : (afterDeposit s p amt).votingEnd = s.time + activationPeriod s { p with total := p.total + amt } := by
+      unfold afterDeposit; rw [if_pos c]
+    refine ⟨⟨fun _ => (by rw [← e]; exact hact), fun _ => u1⟩, Or.inl u1, fun _ => ⟨u2, ?_⟩⟩
+    rw [u3, activation_period_by_type]
+  · have hact' : reaches (p.total + amt) (minForMsgs s.custom (defaultMin s p.expedited) p.msgs) = false := by simpa using hact
+    have c : ¬ (p.status == .deposit && reaches (p.total + amt) (minForMsgs s.custom (defaultMin s p.expedited) p.msgs)) = true := by
+      simp [hact']
+    have u1 : (afterDeposit s p amt).status = .deposit := by unfold afterDeposit; rw [if_neg c]; exact hdep
+    refine ⟨⟨fun h => (by rw [u1] at h; cases h), fun h => ?_⟩, Or.inr u1, fun h => (by rw [u1] at h; cases h)⟩
+    rw [← e] at h; exact absurd (h.symm.trans hact') (by decide)
+
+theorem afterDeposit_voting (s : State) (p : Proposal) (amt : Nat) (hv : p.status = .voting) :
+    afterDeposit s p amt = { p with total := p.total + amt } := by
+  simp [afterDeposit, hv]
+
+/-- **the active-queue keys are the stored voting ends** (two sites that have to agree, both read from the source): both
+`ActivateVotingPeriod` and the expedited→regular conversion write the proposal into the active queue under the very
+`VotingEndTime` they store in it — so the time the tally happens (`voting_ends_exactly_at_period_end`) is the time the
+proposal shows -/
+theorem queue_keys_are_the_stored_voting_end (s : State) (p : Proposal) :
+    activationQueueKeyIsVotingEnd = true ∧ conversionQueueKeyIsVotingEnd = true ∧
+    activationQueueTime s p = s.time + specPeriod s.params s.custom p.msgs p.expedited := by
+  refine ⟨rfl, rfl, ?_⟩
+  simp only [activationQueueTime, show activationQueueKeyIsVotingEnd = true from rfl, if_true, activation_period_by_type]
+
+/-- **a proposal enters voting exactly when a deposit brings its total to the minimum of its message type — after every
+history, for every next operation**.  With `s` the state after any operation list and `s'` the state after one more
+operation: (1) a stored proposal in its deposit period is in its voting period afterwards if AND ONLY IF its total changed
+(the operation was an accepted deposit on it) and the new total reaches the minimum applicable to its message type with the
+parameters and custom parameters of that moment; when it does, voting starts now, ends at now + the period configured for
+its message type at that moment, and that end time is its entry in the active queue; its messages and kind never change;
+(2) the same for a proposal that is stored by this very operation (submission with its initial deposit); (3) a proposal
+that has ended is never touched again (in particular it never re-enters voting). -/
+theorem enters_voting_exactly_when_min_reached (ops : List Op) (op : Op) (pid : Nat) :
+    let s := run init ops
+    let s' := (step s op).1
+    (∀ p, findProp s.props pid = some p → p.status = .deposit → ∀ p', findProp s'.props pid = some p' →
+        (p'.status = .voting ↔ (p'.total ≠ p.total ∧ specActivates s.custom (defaultMin s p.expedited) p.msgs p'.total = true)) ∧
+        (p'.status = .voting → p'.votingStart = s.time ∧ p'.votingEnd = s.time + specPeriod s.params s.custom p.msgs p.expedited ∧
+            (p'.votingEnd, pid) ∈ s'.active) ∧
+        (p'.status = .voting ∨ p'.status = .deposit) ∧ p'.msgs = p.msgs ∧ p'.expedited = p.expedited) ∧
+    (findProp s.props pid = none → ∀ p', findProp s'.props pid = some p' →
+        (p'.status = .voting ↔ specActivates s.custom (defaultMin s p'.expedited) p'.msgs p'.total = true) ∧
+        (p'.status = .voting → p'.votingStart = s.time ∧ p'.votingEnd = s.time + specPeriod s.params s.custom p'.msgs p'.expedited ∧
+            (p'.votingEnd, pid) ∈ s'.active) ∧
+        (p'.status = .voting ∨ p'.status = .deposit)) ∧
+    (∀ p, findProp s.props pid = some p → isOpenSt p.status = false → findProp s'.props pid = some p) := by
+  intro s s'
+  have ha : All s := run_all rfl rfl rfl rfl ops init init_all
+  have ha' : All s' := step_all rfl rfl rfl rfl op ha
+  have inq : ∀ p', findProp s'.props pid = some p' → p'.status = .voting → (p'.votingEnd, pid) ∈ s'.active :=
+    fun p' h1 h2 => ha'.both.q.actComplete pid p' h1 h2
+  by_cases hE : ∃ dt stk, op = .endBlock dt stk
+  · obtain ⟨dt, stk, rfl⟩ := hE
+    have hs' : s' = (step s (.endBlock dt stk)).1 := rfl
+    simp only [step] at hs'
+    cases hb : endBlock stk s with
+    | error e =>
+      have e' : s' = s := by rw [hs', hb]
+      rw [e']
+      refine ⟨fun p hp hd p' hp' => ?_, fun hn p' hp' => ?_, fun p hp _ => hp⟩
+      · rw [hp] at hp'; cases hp'
+        refine ⟨⟨fun h => (by rw [hd] at h; cases h), fun h => absurd rfl h.1⟩, fun h => (by rw [hd] at h; cases h), Or.inr hd, rfl, rfl⟩
+      · rw [hn] at hp'; cases hp'
+    | ok s1 =>
+      have e' : s'.props = s1.props := by rw [hs', hb]
+      rw [e']
+      refine ⟨fun p hp hd p' hp' => ?_, fun hn p' hp' => ?_, fun p hp hc => ?_⟩
+      · have dd := endBlock_deposit rfl rfl rfl rfl ha hb hp hd
+        by_cases hlt : s.time < p.depositEnd
+        · rw [dd.1 hlt] at hp'; cases hp'
+          refine ⟨⟨fun h => (by rw [hd] at h; cases h), fun h => absurd rfl h.1⟩, fun h => (by rw [hd] at h; cases h), Or.inr hd, rfl, rfl⟩
+        · rw [dd.2 (by omega)] at hp'; cases hp'
+      · have := endBlock_closed rfl rfl rfl rfl ha hb (pid := pid) (fun p hp => by rw [hn] at hp; cases hp)
+        rw [this, hn] at hp'; cases hp'
+      · have := endBlock_closed rfl rfl rfl rfl ha hb (pid := pid) (fun q hq => by rw [hp] at hq; cases hq; exact hc)
+        rw [this]; exact hp
+  · have hne : ∀ dt stk, op ≠ .endBlock dt stk := fun dt stk e => hE ⟨dt, stk, e⟩
+    have sh := step_findProp s op hne ha.both.q pid
+    refine ⟨fun p hp hd p' hp' => ?_, fun hn p' hp' => ?_, fun p hp hc => ?_⟩
+    · rcases sh with sh | ⟨q, who, amt, hq, _, _, hamt, hr⟩ | ⟨who, q, _, _, _, hr⟩ | ⟨who, msgs, initial, exp, _, _, hnone, _, _⟩
+      · have : findProp s'.props pid = findProp s.props pid := sh
+        rw [this, hp] at hp'; cases hp'
+        refine ⟨⟨fun h => (by rw [hd] at h; cases h), fun h => absurd rfl h.1⟩, fun h => (by rw [hd] at h; cases h), Or.inr hd, rfl, rfl⟩
+      · rw [hp] at hq; cases hq
+        have hr' : findProp s'.props pid = some (afterDeposit s p amt) := hr
+        rw [hr'] at hp'; cases hp'
+        obtain ⟨f1, f2, f3, f4, f5, f6⟩ := afterDeposit_facts s p amt hd
+        refine ⟨⟨fun h => ⟨(by rw [f1]; omega), (by rw [f1]; exact f4.mp h)⟩, fun h => f4.mpr (by rw [← f1]; exact h.2)⟩,
+          fun h => ⟨(f6 h).1, (f6 h).2, inq _ hr' h⟩, f5, f2, f3⟩
+      · have hr' : findProp s'.props pid = none := hr
+        rw [hr'] at hp'; cases hp'
+      · rw [hp] at hnone; cases hnone
+    · rcases sh with sh | ⟨q, who, amt, hq, _⟩ | ⟨who, q, _, hq, _⟩ | ⟨who, msgs, initial, exp, _, _, _, _, hr⟩
+      · have : findProp s'.props pid = findProp s.props pid := sh
+        rw [this, hn] at hp'; cases hp'
+      · rw [hn] at hq; cases hq
+      · rw [hn] at hq; cases hq
+      · have hr' : findProp s'.props pid = some (afterDeposit s (newProp s who msgs exp) initial) := hr
+        rw [hr'] at hp'; cases hp'
+        obtain ⟨f1, f2, f3, f4, f5, f6⟩ := afterDeposit_facts s (newProp s who msgs exp) initial rfl
+        have f1' : (afterDeposit s (newProp s who msgs exp) initial).total = initial := by rw [f1]; simp [newProp]
+        refine ⟨?_, fun h => ⟨(f6 h).1, ?_, inq _ hr' h⟩, f5⟩
+        · rw [f2, f3, f1']
+          have : (newProp s who msgs exp).total + initial = initial := by simp [newProp]
+          rw [this] at f4
+          exact f4
+        · rw [f2, f3]; exact (f6 h).2
+    · rcases sh with sh | ⟨q, who, amt, hq, ho, _⟩ | ⟨who, q, _, hq, ho, _⟩ | ⟨who, msgs, initial, exp, _, _, hnone, _, _⟩
+      · have : findProp s'.props pid = findProp s.props pid := sh
+        rw [this]; exact hp
+      · rw [hp] at hq; cases hq; rw [hc] at ho; cases ho
+      · rw [hp] at hq; cases hq; rw [hc] at ho; cases ho
+      · rw [hp] at hnone; cases hnone
+
+/-- **voting ends exactly at the queue time, with the period and quorum of the message type — after every history, for
+every next operation**.  With `s` the state after any operation list, `p` a stored proposal in its voting period and `s'` the
+state after one more operation: (1) unless that operation is a block whose time has reached `p`'s voting end (or the
+proposer cancels it), the proposal stays in its voting period with the same start, end, kind and messages, and its end time
+stays its entry in the active queue — nothing ends it early, nothing moves its end; (2) a block whose time has reached its
+voting end (staking numbers of any staking state) tallies it in that very block: there is a moment `sm` of the end-blocker
+walk — same clock and parameters, the proposal exactly as the block found it — at which the stored votes are summed and the
+decision is the specified one with the quorum configured for its message type at that moment; if it passes it becomes PASSED
+or FAILED, if not a regular proposal is REJECTED and an expedited one is converted: it stays in voting, is no longer
+expedited, and its new end is its START + the regular period configured for its message type at that moment, which is its
+new entry in the active queue. -/
+theorem voting_ends_exactly_at_period_end (ops : List Op) (op : Op) (pid : Nat) (p : Proposal) :
+    let s := run init ops
+    let s' := (step s op).1
+    findProp s.props pid = some p → p.status = .voting →
+    ((¬ ∃ dt stk, op = .endBlock dt stk ∧ p.votingEnd ≤ s.time) → (∀ who, op ≠ .cancel pid who) →
+        ∃ p', findProp s'.props pid = some p' ∧ p'.status = .voting ∧ p'.votingStart = p.votingStart ∧
+          p'.votingEnd = p.votingEnd ∧ p'.expedited = p.expedited ∧ p'.msgs = p.msgs ∧ (p.votingEnd, pid) ∈ s'.active) ∧
+    (∀ dt stk, op = .endBlock dt stk → stakingOk stk → p.votingEnd ≤ s.time →
+        ∃ (sm : State) (n : Nums) (q : Proposal), sm.params = s.params ∧ sm.time = s.time ∧ findProp sm.props pid = some p ∧
+          tallyNums (votesOf sm.votes pid) stk = some n ∧ n.bonded = stk.totalBonded ∧
+          findProp s'.props pid = some q ∧ q.msgs = p.msgs ∧ q.votingStart = p.votingStart ∧
+          (specPasses s.params (specQuorum s.params sm.custom p.msgs) p.expedited n = true →
+              q.status = .passed ∨ q.status = .failed) ∧
+          (specPasses s.params (specQuorum s.params sm.custom p.msgs) p.expedited n = false → p.expedited = false →
+              q.status = .rejected) ∧
+          (specPasses s.params (specQuorum s.params sm.custom p.msgs) p.expedited n = false → p.expedited = true →
+              q.status = .voting ∧ q.expedited = false ∧
+              q.votingEnd = p.votingStart + specPeriod s.params sm.custom p.msgs false ∧ (q.votingEnd, pid) ∈ s'.active)) := by
+  intro s s' hp hv
+  have ha : All s := run_all rfl rfl rfl rfl ops init init_all
+  have ha' : All s' := step_all rfl rfl rfl rfl op ha
+  have inq : ∀ p', findProp s'.props pid = some p' → p'.status = .voting → (p'.votingEnd, pid) ∈ s'.active :=
+    fun p' h1 h2 => ha'.both.q.actComplete pid p' h1 h2
+  refine ⟨fun hnd hnc => ?_, fun dt stk hop hs hle => ?_⟩
+  · have same : findProp s'.props pid = some p → ∃ p', findProp s'.props pid = some p' ∧ p'.status = .voting ∧
+        p'.votingStart = p.votingStart ∧ p'.votingEnd = p.votingEnd ∧ p'.expedited = p.expedited ∧ p'.msgs = p.msgs ∧
+        (p.votingEnd, pid) ∈ s'.active := fun h => ⟨p, h, hv, rfl, rfl, rfl, rfl, inq p h hv⟩
+    by_cases hE : ∃ dt stk, op = .endBlock dt stk
+    · obtain ⟨dt, stk, rfl⟩ := hE
+      have hlt : s.time < p.votingEnd := by
+        have : ¬ p.votingEnd ≤ s.time := fun h => hnd ⟨dt, stk, rfl, h⟩
+        omega
+      have hs' : s' = (step s (.endBlock dt stk)).1 := rfl
+      simp only [step] at hs'
+      cases hb : endBlock stk s with
+      | error e =>
+        have e' : s' = s := by rw [hs', hb]
+        exact same (by rw [e']; exact hp)
+      | ok s1 =>
+        have e' : s'.props = s1.props := by rw [hs', hb]
+        exact same (by rw [e']; exact (endBlock_voting rfl rfl rfl rfl ha hb hp hv).1 hlt)
+    · have hne : ∀ dt stk, op ≠ .endBlock dt stk := fun dt stk e => hE ⟨dt, stk, e⟩
+      rcases step_findProp s op hne ha.both.q pid with sh | ⟨q, who, amt, hq, _, _, _, hr⟩ | ⟨who, q, hc, _⟩ |
+          ⟨who, msgs, initial, exp, _, _, hnone, _, _⟩
+      · have : findProp s'.props pid = findProp s.props pid := sh
+        exact same (by rw [this]; exact hp)
+      · rw [hp] at hq; cases hq
+        have hr' : findProp s'.props pid = some (afterDeposit s p amt) := hr
+        rw [afterDeposit_voting s p amt hv] at hr'
+        exact ⟨{ p with total := p.total + amt }, hr', hv, rfl, rfl, rfl, rfl, inq { p with total := p.total + amt } hr' hv⟩
+      · exact absurd hc (hnc who)
+      · rw [hp] at hnone; cases hnone
+  · subst hop
+    obtain ⟨s1, hb, _⟩ := endBlock_total rfl rfl rfl rfl rfl ha hs
+    have hs' : s' = (step s (.endBlock dt stk)).1 := rfl
+    simp only [step, hb] at hs'
+    have e' : s'.props = s1.props := by rw [hs']
+    obtain ⟨sm, q, n, passes, burn, hsm, hpar, htime, hpm, hn, hr, hq, hend⟩ :=
+      (endBlock_voting rfl rfl rfl rfl ha hb hp hv).2 hle
+    obtain ⟨n', hn', hj, hbond⟩ := tallyNums_ok (votes := votesOf sm.votes pid) (stk := stk)
+      (fun v hv' => hsm.both.v.valid v (mem_votesOf.mp hv').1) hs rfl
+    rw [hn] at hn'; cases hn'
+    have hout := tally_outcome_by_type sm p n hj
+    rw [hr, hpar] at hout
+    have hpass : passes = specPasses s.params (specQuorum s.params sm.custom p.msgs) p.expedited n := by
+      cases hout; rfl
+    have hq' : findProp s'.props pid = some q := by rw [e']; exact hq
+    obtain ⟨e1, e2, _, _, e5⟩ := hend
+    refine ⟨sm, n, q, hpar, htime, hpm, hn, hbond, hq', e1, e2, fun h => ?_, fun h hx => ?_, fun h hx => ?_⟩
+    · rcases e5 with e5 | e5 | e5
+      · exact e5.2
+      · rw [hpass, h] at e5; cases e5.1
+      · rw [hpass, h] at e5; cases e5.1
+    · rcases e5 with e5 | e5 | e5
+      · rw [hpass, h] at e5; cases e5.1
+      · rw [hx] at e5; cases e5.2.1
+      · exact e5.2.2
+    · rcases e5 with e5 | e5 | e5
+      · rw [hpass, h] at e5; cases e5.1
+      · have hst : q.status = .voting := by rw [e5.2.2.1]; exact hv
+        have hend' : q.votingEnd = p.votingStart + specPeriod s.params sm.custom p.msgs false := by
+          rw [e5.2.2.2.2, conversion_period_by_type, hpar]
+        exact ⟨hst, e5.2.2.2.1, hend', inq q hq' hst⟩
+      · rw [hx] at e5; cases e5.2.1
+
+/-- **the deposit period ends exactly at the deposit end**: after every history, a block (staking numbers of any staking
+state) leaves a proposal in its deposit period untouched while the block time is before its deposit end, and from its
+deposit end on deletes it in that very block — and none of its deposit records is left (they were refunded or burnt, see
+`each_deposit_settled_once_refund` / `_burn`, and the module balance is again the sum of the open deposits) -/
+theorem deposit_period_ends_exactly_at_deposit_end (ops : List Op) (dt : Nat) (stk : Staking) (hs : stakingOk stk)
+    (pid : Nat) (p : Proposal) :
+    let s := run init ops
+    let s' := (step s (.endBlock dt stk)).1
+    findProp s.props pid = some p → p.status = .deposit →
+    (s.time < p.depositEnd → findProp s'.props pid = some p) ∧
+    (p.depositEnd ≤ s.time → findProp s'.props pid = none ∧ depsOf s'.deps pid = []) := by
+  intro s s' hp hd
+  have ha : All s := run_all rfl rfl rfl rfl ops init init_all
+  obtain ⟨s1, hb, _⟩ := endBlock_total rfl rfl rfl rfl rfl ha hs
+  have hs' : s' = (step s (.endBlock dt stk)).1 := rfl
+  simp only [step, hb] at hs'
+  have e' : s'.props = s1.props := by rw [hs']
+  have dd := endBlock_deposit rfl rfl rfl rfl ha hb hp hd
+  refine ⟨fun h => by rw [e']; exact dd.1 h, fun h => ?_⟩
+  have hnone : findProp s'.props pid = none := by rw [e']; exact dd.2 h
+  refine ⟨hnone, ?_⟩
+  have hrun : s' = run init (ops ++ [.endBlock dt stk]) := (run_snoc ops init _).symm
+  have := each_deposit_settled_once (ops ++ [.endBlock dt stk]) pid
+  simp only at this
+  rw [← hrun] at this
+  exact (this (by simp [isOpenId, hnone])).1
+
+/-! ## round 3: the staking numbers of a block are STATE of a small staking model, not an input
+
+`wstep` (`Model/C15Staking.lean`) runs the gov model next to a staking state — genesis validators with their delegations,
+`MsgDelegate` (shares issued at the validator's exchange rate), `Keeper.Slash` at the current height (tokens burnt, shares
+kept) — and hands every end-blocker the numbers of that state (`viewOf`).  The hypotheses `stakingOk` and "delegations to a
+validator add up to at most its shares", which the round-2 theorems had to assume about the block input, are invariants here. -/
+
+/-- the gov component of the combined machine is a state of the gov machine: every theorem about `run init ops` above
+holds for it -/
+theorem world_gov_is_reachable (ops : List WOp) : ∃ gops, (wrun winit ops).gov = run init gops :=
+  wrun_gov ops winit ⟨[], rfl⟩
+
+/-- **after every history of gov operations, delegations and slashes** every bonded validator has delegator shares … -/
+theorem staking_numbers_always_ok (ops : List WOp) : stakingOk (viewOf (wrun winit ops).stk) := by
+  have h := wrun_sok ops winit (fun v hv => by simp [winit] at hv)
+  intro v hv
+  exact h v (List.mem_filter.mp hv).1
+
+/-- … no operator occurs twice and the recorded delegations to a validator never exceed its delegator shares -/
+theorem delegations_within_shares (ops : List WOp) :
+    ∀ v ∈ (viewOf (wrun winit ops).stk).vals, delSum (viewOf (wrun winit ops).stk).dels v.op ≤ v.shares := by
+  have h := (wrun_dok ops winit ⟨rfl, fun v hv => by simp [winit] at hv⟩).within
+  intro v hv
+  exact h v (List.mem_filter.mp hv).1
+
+/-- **the end-blocker never halts, with no assumption left about the staking numbers**: after every history of the
+combined machine a block answers `ok` (the numbers written on the op are ignored — the tallies read the modelled state) -/
+theorem no_halt_closed (ops : List WOp) (dt : Nat) (stk : Staking) :
+    (wstep (wrun winit ops) (.gov (.endBlock dt stk))).2 = "ok" := by
+  obtain ⟨gops, hg⟩ := world_gov_is_reachable ops
+  have := no_halt gops dt (viewOf (wrun winit ops).stk) (staking_numbers_always_ok ops)
+  simp only [wstep, hg]
+  exact this
+
+theorem sumNat_map_shares : ∀ ds : List Del, sumNat (ds.map (·.shares)) = sumShares ds := by
+  intro ds
+  induction ds with
+  | nil => rfl
+  | cons d r ih => simp only [List.map_cons, sumNat, sumShares, ih]
+
+/-- **no stake is counted for more than it is worth, closed**: for every validator of every reachable staking state, the
+voting powers `Tally` gives to ALL recorded delegations to it plus the power it leaves to the validator itself exceed its
+bonded tokens by at most one unit of 10^-18 per term -/
+theorem tally_power_bounded_closed (ops : List WOp) (v : Val) (hv : v ∈ (viewOf (wrun winit ops).stk).vals) :
+    let ds := ((viewOf (wrun winit ops).stk).dels.filter (fun d => d.val == v.op)).map (·.shares)
+    ∃ pv, valPower v (sumNat ds) = some pv ∧
+      sumNat (ds.map (fun d => quoVal (d * v.bonded) v.shares)) + pv ≤ DEC * v.bonded + ds.length + 1 := by
+  intro ds
+  have hS := staking_numbers_always_ok ops v hv
+  have hsum : sumNat ds ≤ v.shares := by
+    have := delegations_within_shares ops v hv
+    simpa [ds, sumNat_map_shares, delSum] using this
+  obtain ⟨pv, h1, _, h3⟩ := tally_power_bounded_by_stake v hS ds hsum
+  exact ⟨pv, h1, h3⟩
+
+/-! ## round 3: the deposit ledger over whole histories -/
+
+/-- **every coin paid in for a proposal is held or has been settled — exactly once — after every history**: per proposal,
+the sum of everything ever deposited for it (initial deposits and `MsgDeposit`s, ghost log `paid`) equals the sum of its
+deposit records still stored plus the sum of its settlements (refund, burn, or refund-and-charge of a cancellation, ghost
+log `settled`, one entry per deposit record at the moment it was deleted).  Once the proposal is no longer open nothing is
+held, so exactly what was paid in has been settled: nothing twice, nothing left behind. -/
+theorem deposits_paid_equal_held_plus_settled (ops : List Op) (pid : Nat) :
+    let s := run init ops
+    sumAmt (depsOf s.paid pid) = sumAmt (depsOf s.deps pid) + sumSettled (settledOf s.settled pid) ∧
+    (isOpenId s.props pid = false → sumAmt (depsOf s.paid pid) = sumSettled (settledOf s.settled pid)) := by
+  intro s
+  have hl : Ledger s := run_ledger rfl rfl rfl ops init init_ledger
+  refine ⟨hl pid, fun hc => ?_⟩
+  have h0 : sumAmt (depsOf s.deps pid) = 0 := (each_deposit_settled_once ops pid hc).2
+  have h := hl pid
+  rw [h0] at h
+  simpa using h
+
 /-! ## non-vacuity -/
 
 def egf : Ty := egfUrl.toList
@@ -781,5 +1263,55 @@ example : (step init (.submit 0 [spend 1 0, ⟨"/fx.gov.v1.MsgUpdateStore".toLis
 example : (runProposalMsgs [⟨[], true, true, .cas 0 0 5, []⟩, ⟨[], true, true, .cas 1 9 1, []⟩] init).2 = false ∧
     (runProposalMsgs [⟨[], true, true, .cas 0 0 5, []⟩, ⟨[], true, true, .cas 1 9 1, []⟩] init).1.kv = [] ∧
     (execMsg ⟨[], true, true, .cas 0 0 5, []⟩ init).map (·.kv) = some [(0, 5)] := by decide
+
+/-! non-vacuity of the round-3 theorems -/
+def demoCustom : List (Ty × Custom) := [(egf, ⟨100000000000000000, 30, 400000000000000000⟩)]
+example : specActivates demoCustom 1000 [spend 20000 0] 1999 = false ∧ specActivates demoCustom 1000 [spend 20000 0] 2000 = true ∧
+    specActivates demoCustom 1000 [spend 0 4] 1000 = true ∧ specActivates demoCustom 1000 [spend 0 40] 1000000 = false ∧
+    specActivates demoCustom 1000 [toggle] 999 = false ∧ specActivates demoCustom 1000 [toggle] 1000 = true ∧
+    specActivates demoCustom 0 [toggle] 0 = false := by decide
+-- `activation_iff_min_deposit` / `enters_voting_exactly_when_min_reached` (1): proposal 1 is in its deposit period after the
+-- first four operations, the fifth (a deposit of 1) brings it to 2000 and into voting until 0 + 30
+example : ((findProp (run init (demoOps.take 4)).props 1).map (fun p => (p.status, p.total, p.id))) = some (.deposit, 1999, 1) ∧
+    ((findProp (step (run init (demoOps.take 4)) (.deposit 1 1 1)).1.props 1).map (fun p => (p.status, p.total, p.votingEnd))) =
+      some (.voting, 2000, 30) := by decide
+-- (2): an id that is not stored, created in voting by a submission with a sufficient initial deposit
+example : findProp (run init (demoOps.take 6)).props 3 = none ∧
+    ((findProp (step (run init (demoOps.take 6)) (.submit 1 [toggle] 5000 true)).1.props 3).map (fun p => (p.status, p.votingEnd))) =
+      some (.voting, 50) := by decide
+-- `voting_ends_exactly_at_period_end` (2) / `deposit_period_ends_exactly_at_deposit_end`: at block time 50 proposal 1 (voting
+-- end 30) and the expedited proposal 3 (voting end 50) are due, proposal 2 (deposit end 100) is not
+example : (run init (demoOps.take 14)).time = 50 ∧
+    ((run init (demoOps.take 14)).props.map (fun p => (p.id, p.status, p.depositEnd, p.votingEnd, p.expedited))) =
+      [(1, .voting, 100, 30, false), (2, .deposit, 100, 0, false), (3, .voting, 100, 50, true), (4, .deposit, 100, 0, false)] := by
+  decide
+
+/-! the combined machine: three genesis validators, a delegation at a slashed validator's exchange rate, blocks -/
+def demoGenesis : StakingSt :=
+  { vals := [⟨100, 100, 100 * DEC⟩, ⟨101, 100, 100 * DEC⟩, ⟨102, 100, 100 * DEC⟩],
+    dels := [⟨100, 100, 100 * DEC⟩, ⟨101, 101, 100 * DEC⟩, ⟨102, 102, 100 * DEC⟩], reduction := 10 }
+def demoWOps : List WOp :=
+  [ .genesis demoGenesis, .gov (.mint 0 100000), .slash 100 500000000000000000,
+    .delegate 0 100 50,            -- validator 100 has 50 tokens for 100 shares: 50 tokens buy 100 shares
+    .gov (.submit 0 [toggle] 1000 false), .gov (.vote 1 0 [(.yes, DEC)]), .gov (.vote 1 101 [(.no, DEC)]),
+    .gov (.endBlock 100 {}), .gov (.endBlock 1 {}) ]
+example : genesisOk demoGenesis = true := by decide
+example : (viewOf (wrun winit demoWOps).stk).vals = [⟨100, 100, 200 * DEC⟩, ⟨101, 100, 100 * DEC⟩, ⟨102, 100, 100 * DEC⟩] ∧
+    (viewOf (wrun winit demoWOps).stk).totalBonded = 300 ∧
+    (viewOf (wrun winit demoWOps).stk).dels.map (fun d => (d.who, d.val, d.shares / DEC)) = [(100, 100, 100), (101, 101, 100), (102, 102, 100), (0, 100, 100)] := by
+  decide
+-- account 0 holds half of validator 100's shares = 50 tokens, validator 101 its 100: turnout 150/300, yes 50 : no 100
+example : (wrun winit demoWOps).gov.props.map (fun p => (p.status, p.tallyRes)) = [(.rejected, (50, 0, 100, 0))] := by decide
+example : (wstep winit (.genesis { vals := [⟨100, 5, 0⟩] })).2 = "err:genesis" := by decide
+-- a validator slashed below one unit of consensus power leaves the bonded set at the end of the block, and comes back
+-- once a delegation lifts it again
+example : (viewOf (wrun winit [.genesis demoGenesis, .slash 101 950000000000000000, .gov (.endBlock 1 {})]).stk).vals.map (·.op) = [100, 102] ∧
+    (viewOf (wrun winit [.genesis demoGenesis, .gov (.mint 0 100), .slash 101 950000000000000000, .gov (.endBlock 1 {}), .delegate 0 101 5,
+      .gov (.endBlock 1 {})]).stk).vals.map (fun v => (v.op, v.bonded)) = [(100, 100), (101, 10), (102, 100)] := by decide
+
+-- the ledger on the demo history: proposal 1 (passed, refunded) was paid 1999 + 1 and settled 1999 + 1; proposal 3 (open) holds 5000
+example : sumAmt (depsOf (run init demoOps).paid 1) = 2000 ∧ sumSettled (settledOf (run init demoOps).settled 1) = 2000 ∧
+    sumAmt (depsOf (run init demoOps).deps 1) = 0 ∧ sumAmt (depsOf (run init demoOps).deps 3) = 5000 ∧
+    sumSettled (settledOf (run init demoOps).settled 3) = 0 := by decide
 
 end FxVerif.Props.C15
